@@ -17,9 +17,10 @@
    The Interval model (iv_elapsed / iv_components over precise_diff of the two operands, each with its OWN offset) is what Interval.__init__
    does for either occurrence of a repeated wall time since the repair of finding interval-init-drops-fold (listed for C18): the natives it
    hands to precise_diff carry the fold of the endpoints (iv_former_second_occurrence_witness; stream interval-second-occurrence). *)
-From Coq Require Import ZArith Bool.
-From PV Require Import Lib.PyBase Spec.Cal Gen.Helpers Model.RustHelpers Model.PdBase Gen.PreciseDiff Model.RustPreciseDiff Model.PdInterval.
-From PV Require Import Proofs.C06Facts Proofs.C06Spec Proofs.C06Dates Proofs.C06Rebuild Proofs.C06Interval Proofs.C06Rust Proofs.C06Thms Proofs.C06Fold.
+From Coq Require Import ZArith Bool List.
+Import ListNotations.
+From PV Require Import Lib.PyBase Spec.Cal Gen.Helpers Model.RustHelpers Model.PdBase Gen.PreciseDiff Model.RustPreciseDiff Model.PdInterval Model.PdHistory.
+From PV Require Import Proofs.C06History Proofs.C06Facts Proofs.C06Spec Proofs.C06Dates Proofs.C06Rebuild Proofs.C06Interval Proofs.C06Rust Proofs.C06Thms Proofs.C06Fold.
 Open Scope Z_scope.
 
 (* years >= 0, months 0..11, days 0..30, hours 0..23, minutes/seconds 0..59, microseconds 0..999999 *)
@@ -176,3 +177,69 @@ Theorem pd_rust_eq_python_cross_zone_refuted : exists a b,
   py_precise_diff a b = Ok (mkPD 0 1 3 0 30 0 0 31) /\ rs_precise_diff a b = mkPD 0 1 0 0 30 0 0 31.
 Proof. exact rs_cross_zone_refuted. Qed.
 Print Assumptions pd_rust_eq_python_cross_zone_refuted.
+
+(* ---- a whole PROCESS: several Intervals built (and helper calls made) one after the other (Model/PdHistory.run_history; the history-*
+   streams run it against one interpreter executing the same constructions in order).  rs = false: pure-Python helper, true: compiled. *)
+Theorem history_prefix_stable : forall rs h t, run_history rs (h ++ t) = run_history rs h ++ run_history rs t.
+Proof. exact C06History.history_split. Qed.
+Print Assumptions history_prefix_stable.
+
+(* what an Interval reports (components, a + (b - a), the reversed Interval) is the same at every position of every history *)
+Theorem components_independent_of_history : forall rs h1 t1 h2 t2 s,
+  nth_error (run_history rs (h1 ++ s :: t1)) (length h1) = Some (eval_step rs s)
+  /\ nth_error (run_history rs (h2 ++ s :: t2)) (length h2) = Some (eval_step rs s).
+Proof. exact C06History.components_independent_of_history. Qed.
+Print Assumptions components_independent_of_history.
+
+(* COUNTER-MODEL run_memo (a memo in front of precise_diff, looked up with the equivalence eqv): transparent whenever eqv separates
+   everything precise_diff depends on — in particular when it compares all twelve fields of both operands *)
+Theorem memo_with_faithful_key_is_transparent : forall eqv pd h,
+  (forall k k', eqv k k' = true -> pd (fst k) (snd k) = pd (fst k') (snd k')) -> run_memo eqv pd [] h = map (step_with pd) h.
+Proof. exact C06History.memo_transparent. Qed.
+Print Assumptions memo_with_faithful_key_is_transparent.
+
+Theorem memo_keyed_by_all_fields_is_transparent : forall rs h, run_memo identity_eq (pd_of rs) [] h = run_history rs h.
+Proof. exact C06History.identity_memo_transparent. Qed.
+Print Assumptions memo_keyed_by_all_fields_is_transparent.
+
+(* ... and NOT transparent when it is looked up with CPython's == / hash of the native operands (functools.lru_cache): aware datetimes are
+   equal when their INSTANTS are, so 2021-02-28T22:00Z .. 2021-03-31T22:00Z (1 month 3 days) and the same two instants at +05:00,
+   2021-03-01T03:00 .. 2021-04-01T03:00 (1 month 0 days), share an entry: the second Interval reports the first one's components and
+   a + (b - a) is 2021-04-04T03:00 *)
+Theorem memo_keyed_by_equality_refuted : forall rs,
+  cpython_eq (w_ua, w_ub) (w_fa, w_fb) = true /\
+  nth_error (run_history rs [mkhstep HIv w_ua w_ub; mkhstep HIv w_fa w_fb]) 1
+    = Some [[0; 0; 1; 0; 0; 0; 0; 0; 0; 1; 31]; [0; 2021; 4; 1; 3; 0; 0; 0]; [0; 0; -1; 0; 0; 0; 0; 0; 0; -1; -31]] /\
+  nth_error (run_memo cpython_eq (pd_of rs) [] [mkhstep HIv w_ua w_ub; mkhstep HIv w_fa w_fb]) 1
+    = Some [[0; 0; 1; 0; 3; 0; 0; 0; 0; 1; 31]; [0; 2021; 4; 4; 3; 0; 0; 0]; [0; 0; -1; 0; -3; 0; 0; 0; 0; -1; -31]].
+Proof. exact C06History.memo_keyed_by_equality_refuted. Qed.
+Print Assumptions memo_keyed_by_equality_refuted.
+
+(* whichever zone comes first wins *)
+Theorem memo_keyed_by_equality_order_dependent : forall rs,
+  nth_error (run_memo cpython_eq (pd_of rs) [] [mkhstep HIv w_ua w_ub; mkhstep HIv w_fa w_fb]) 1
+  <> nth_error (run_memo cpython_eq (pd_of rs) [] [mkhstep HIv w_fa w_fb; mkhstep HIv w_ua w_ub]) 0.
+Proof. exact C06History.cpython_eq_memo_order_dependent. Qed.
+Print Assumptions memo_keyed_by_equality_order_dependent.
+
+(* the two occurrences of 2012-10-28T02:20 Europe/Paris carry the same tzinfo object: == compares their wall fields and ignores the fold *)
+Theorem memo_keyed_by_equality_conflates_folds : forall rs,
+  cpython_eq (w_s, w_e0) (w_s, w_e1) = true
+  /\ run_memo cpython_eq (pd_of rs) [] [mkhstep HIv w_s w_e0; mkhstep HIv w_s w_e1]
+     <> run_history rs [mkhstep HIv w_s w_e0; mkhstep HIv w_s w_e1].
+Proof. exact C06History.cpython_eq_memo_conflates_folds. Qed.
+Print Assumptions memo_keyed_by_equality_conflates_folds.
+
+(* ---- the component properties of an Interval (interval.py years, months, weeks, remaining_days, hours, minutes, in_years, in_months, in_weeks,
+   in_days: translated from /repo on every run, Gen/IntervalGlue.v) = Model/PdInterval.v iv_components.  An Interval is read through its
+   PreciseDiff (`self._delta`) and Duration._days (dur_days_of elapsed = abs(total seconds) // 86400 * sign); Duration._sign is checked by shape.
+   remaining_seconds / microseconds / days are Duration's (Gen/DurationOps.v, C10). ---- *)
+From PV Require Import Model.TzGlueObj Gen.TzGlue Model.IntervalObj Gen.IntervalGlue Proofs.IntervalGlueNew Proofs.IntervalGlueInit Proofs.IntervalGlueFacts.
+Theorem model_is_code_interval_components : forall delta elapsed,
+  let g := mkgivs delta (dur_days_of elapsed) in let c := iv_components delta elapsed in
+  glue_Interval_years g = iv_years c /\ glue_Interval_months g = iv_months c /\ glue_Interval_weeks g = iv_weeks c /\
+  glue_Interval_remaining_days g = iv_remaining_days c /\ glue_Interval_hours g = iv_hours c /\ glue_Interval_minutes g = iv_minutes c /\
+  glue_Interval_in_months g = iv_in_months c /\ glue_Interval_in_days g = iv_in_days c /\ glue_Interval_in_years g = iv_years c /\
+  glue_Interval_in_weeks g = Z.abs (iv_in_days c) / 7 * sgn (iv_in_days c).
+Proof. exact glue_interval_components. Qed.
+Print Assumptions model_is_code_interval_components.
